@@ -113,6 +113,7 @@ def check_diagnostic(s, err_pieces, referr, aspects):
         problems.append(('format', 'first stderr line is not `<path>:<line>:<col>: <message>`: %r' % flat[:120])); return problems
     line, col = int(m.group(1)), int(m.group(2)); msg = m.group(4)
     if line < 1: problems.append(('format', 'line %d < 1' % line))
+    if not getattr(referr, 'in_slot', False) and re.match(rb"^(\d+:\d+: |in '[^']*': )", msg): problems.append(('format', 'the message itself starts with another position / function prefix: %r' % msg[:100]))
     if not msg.strip(): problems.append(('format', 'empty message'))
     # internal identifiers: the names of the interpreter's own error variants (read from the current source), e.g. a wrapper that the
     # renderer failed to unwrap and printed through its derived Display
